@@ -39,7 +39,7 @@ def random_run_config(rng, P):
         QI = [[0] * M for _ in range(M)] if kind == 'expl' else [[z() if j <= i else 0 for j in range(M)] for i in range(M)]
         QE = [[0] * M for _ in range(M)] if kind == 'impl' else [[z() if j < i else 0 for j in range(M)] for i in range(M)]
         levels.append(dict(kind=kind, M=M, n=n, dt=1, rightnode=True, collupdate=False, A=A, B=B, c=0, Q=Q, QI=QI, QE=QE,
-                           w=list(Q[M - 1])))
+                           w=list(Q[M - 1]), tn=[0] * M, g=[0] * n))
     dt = rng.choice([1, 2])
     for L in levels:
         L['dt'] = dt
